@@ -108,6 +108,21 @@ impl Engine for C10 {
                 out.push(Program { keys, blobs, steps });
             }
         }
+        // one key with several thousand records (bounded windows / caps in readers)
+        {
+            let n = tier.pick(4200usize, 9000usize);
+            let keys = vec!["thousands-of-generations".to_string(), "quiet".to_string()];
+            let blobs = vec![Blob::new(5, 1), Blob::new(9, 2)];
+            let mut steps: Vec<Step> = vec![Step { op: Op::Write(WriteSpec::simple(Some(1), 1)), fl: Fl::Sync }];
+            for i in 0..n {
+                // mostly through the sync API (the async runtimes make thousands of calls slow)
+                steps.push(Step { op: Op::Write(WriteSpec::simple(Some(0), i % 2)), fl: if i % 50 == 49 { Fl::Async } else { Fl::Sync } });
+            }
+            steps.push(Step { op: Op::Remove { key: 0 }, fl: Fl::Sync });
+            steps.push(Step { op: Op::Write(WriteSpec::simple(Some(0), 1)), fl: Fl::Async });
+            steps.push(Step { op: Op::Remove { key: 0 }, fl: Fl::Async });
+            out.push(Program { keys, blobs, steps });
+        }
         // records whose integrity text cannot address content (planted; no well-formed call
         // writes them): the listing must still agree with lookups, whatever both make of them
         let odd: Vec<Option<String>> = vec![
@@ -151,7 +166,7 @@ impl Engine for C10 {
         // the cache directory is spelled in different (equivalent) ways from case to case
         let ctx = Ctx::new(env.scratch.cache_alias(hash_of(prog) >> 3), env.scratch.scratch.clone(), &prog.keys, &prog.blobs);
         let mut model = Model::new();
-        let bulk = prog.keys.len() > 12;
+        let bulk = prog.keys.len() > 12 || prog.steps.len() > 1000;
         let mut nrec: std::collections::HashMap<usize, usize> = Default::default();
         let mut tomb = false;
         let mut nontrivial = false;
